@@ -144,6 +144,10 @@ def _simple_arg(a):
     return isinstance(a, (ast.Name, ast.Constant, ast.Attribute)) or (isinstance(a, ast.Subscript) and _simple_arg(a.value))
 
 
+def _stored_names(func):
+    return {n.id for n in func.body_nodes() if isinstance(n, ast.Name) and isinstance(n.ctx, ast.Store)}
+
+
 def inline_helpers(project, func, max_stmts=14, depth=2, select=None):
     """Return a deep copy of func.node in which calls to small, non-recursive project functions defined in the same module
     (module-level or nested) are replaced by their bodies.  Only helpers that are called as a statement (result unused),
@@ -158,8 +162,15 @@ def inline_helpers(project, func, max_stmts=14, depth=2, select=None):
         if not (isinstance(tgt, list) and len(tgt) == 1):
             return None
         g = tgt[0]
-        if g is func or g.cls is not None:
+        if g is func:
             return None
+        if g.cls is not None:
+            # a method of the same class called on the same object (self.eof() inside another method): only `return <expr>` bodies
+            b = body_of(g)
+            if not (func.cls is g.cls and isinstance(call.func, ast.Attribute) and isinstance(call.func.value, ast.Name) and func.params
+                    and call.func.value.id == func.params[0] and g.params and len(b) == 1 and isinstance(b[0], ast.Return) and b[0].value is not None
+                    and func.params[0] not in _stored_names(func)):
+                return None
         if g.module is not func.module:
             # helpers of other modules: only pure `return <expr>` helpers (their free names are spelled as in their module)
             b = body_of(g)
@@ -179,9 +190,15 @@ def inline_helpers(project, func, max_stmts=14, depth=2, select=None):
 
     def bind(g, call):
         m = {}
-        for pn, a in zip(g.params, call.args):
+        gparams = list(g.params)
+        if g.cls is not None:
+            m[gparams[0]] = ast.Name(id=func.params[0], ctx=ast.Load())
+            gparams = gparams[1:]
+        if len(call.args) > len(gparams):
+            return None
+        for pn, a in zip(gparams, call.args):
             m[pn] = a
-        for pn in g.params[len(call.args):]:
+        for pn in gparams[len(call.args):]:
             if pn not in g.defaults:
                 return None
             m[pn] = g.defaults[pn]
@@ -251,6 +268,9 @@ def inline_helpers(project, func, max_stmts=14, depth=2, select=None):
 def normal_form(project, func, inline=True, select=None):
     """AST of `func` with helpers inlined, tests simplified and if/else in guard form."""
     node = inline_helpers(project, func, select=select) if inline else copy.deepcopy(func.node)
+    # a module-level name bound once to a string / number literal is spelled out: naming a literal changes nothing
+    from . import shape
+    node = shape.spell_constants(project, func, node, tuples=False, copy_node=False)
     node = _Tests().visit(node)
     node.body = _guard_form(node.body)
     ast.fix_missing_locations(node)
